@@ -227,3 +227,17 @@ C19_LOOP_EXCEPTIONS = {
     "c19.loop|hulc::<bdl::envelope::shadings::Shading as std::convert::TryFrom<bdl::blocks::BdlBlock>>::try_from|unbounded-iterator|RangeFrom{..}":
         "`for i in 1..` breaks as soon as attrs.remove_str(\"V<i>\") fails; every iteration removes a distinct key from a finite map",
 }
+
+
+_REC_CORE = ("bemodel::energy::transmittance::<impl types::opaques::Wall>::u_value",
+             "bemodel::energy::transmittance::<impl types::space::Space>::ua_of_external_and_ground_surfaces")
+
+
+def recursion_reason(names):
+    """the one accepted recursion of the workspace: Wall::u_value <-> Space::ua_of_external_and_ground_surfaces, possibly through helper functions of
+    the same module that the two were split into (the reason - the call back happens only for GROUND/EXTERIOR walls, whose arms do not recurse - does
+    not depend on how the arms are packaged; C06-D4 decides the dispatch and the filter)"""
+    ns = set(names)
+    if set(_REC_CORE) <= ns and all(n.startswith("bemodel::energy::transmittance::") for n in ns):
+        return list(RECURSION_OK.values())[0]
+    return None
